@@ -112,6 +112,27 @@ TSkip == /\ l <= Len(Trace) /\ Ev.op # "reset" /\ bad
          /\ stat' = Bump(stat, "skipped")
          /\ l' = l + 1 /\ UNCHANGED <<cfg, th, cur, rts, names, viol, bad>>
 
+(* MakeRoot: C04 C09 C05 C13 on the decoded persisted tree *)
+RECURSIVE HasMissing(_)
+HasMissing(kid) == kid # <<>> /\ (kid[1].k = <<-1>> \/ \E i \in DOMAIN kid[1].c : HasMissing(kid[1].c[i]))
+
+\* every key of the decoded tree is a key of the universe (a rank outside 1..nk means the harness could not decode it back)
+RECURSIVE KeysKnown(_)
+KeysKnown(kid) == kid = <<>> \/ (/\ \A i \in DOMAIN kid[1].k : kid[1].k[i] \in 1..cfg.nk
+                                  /\ \A j \in DOMAIN kid[1].c : KeysKnown(kid[1].c[j]))
+
+(* What C09 and C04 say about a persisted tree taken by itself (no reference to the history that led to it): they are judged
+   even when the handle was tainted by an earlier violation of another property - a persisted root is a persisted root.      *)
+RootIntrinsic(e) ==
+  IF e.res # "ok" \/ HasMissing(e.link) \/ ~KeysKnown(e.link) THEN {} ELSE
+  LET es == Entries(e.link)
+      shaped == Shape(e.link, e.rh, Layer, HiKey)
+      ruleH == RuleHeight({es[i][1] : i \in DOMAIN es}, Layer, Bf)
+  IN (IF ~shaped THEN {V("C09", "persisted tree violates the shape invariants", e.h)} ELSE {})
+     \cup (IF e.rs # Len(es) THEN {V("C09", "recorded size differs from reachable entries", e.h)} ELSE {})
+     \cup (IF shaped /\ e.rh # ruleH THEN {V("C04", "persisted height differs from min(max layer, floor(log_bf(size-1)))", e.h)} ELSE {})
+     \cup (IF shaped /\ e.rh = ruleH /\ e.link # Canon(es, Layer, ruleH) THEN {V("C04", "persisted tree is not the canonical tree of its entries", e.h)} ELSE {})
+
 ActsOnHandle == Ev.op \in {"ins", "del", "get", "iter", "size", "clone", "cursor", "root", "drop"}
 ActorTainted == ActsOnHandle /\ th[Ev.h].taint
 Good(op) == Is(op) /\ ~bad /\ ~ActorTainted
@@ -121,7 +142,7 @@ TTainted == /\ l <= Len(Trace) /\ Ev.op # "reset" /\ ~bad /\ ActorTainted
             /\ LET th2 == IF Ev.op = "clone" /\ Ev.res = "ok" THEN [th EXCEPT ![Ev.g] = TaintedT]
                           ELSE IF Ev.op = "drop" THEN [th EXCEPT ![Ev.h] = DeadT] ELSE th
                    cur2 == IF Ev.op = "cursor" THEN [cur EXCEPT ![Ev.g] = NoCur] ELSE cur
-               IN Finish(th2, cur2, rts, names, {}, Bump(stat, "skipped"))
+               IN Finish(th2, cur2, rts, names, IF Ev.op = "root" THEN RootIntrinsic(Ev) ELSE {}, Bump(stat, "skipped"))
 
 TNew == /\ Good("new")
         /\ LET v == IF Ev.res # "ok" THEN {V("C01", "opening an empty tree fails", Ev.h)} ELSE {}
@@ -200,15 +221,6 @@ TCwalk == /\ Good("cwalk")
                  v == IF c.valid /\ (Ev.res # "ok" \/ Ev.ents # c.ref)
                       THEN {V("C02", "version captured by a cursor changed after later operations", Ev.g)} ELSE {}
              IN Finish(th, [cur EXCEPT ![Ev.g] = NoCur], rts, names, v, Bump(stat, "cwalk"))
-
-(* MakeRoot: C04 C09 C05 C13 on the decoded persisted tree *)
-RECURSIVE HasMissing(_)
-HasMissing(kid) == kid # <<>> /\ (kid[1].k = <<-1>> \/ \E i \in DOMAIN kid[1].c : HasMissing(kid[1].c[i]))
-
-\* every key of the decoded tree is a key of the universe (a rank outside 1..nk means the harness could not decode it back)
-RECURSIVE KeysKnown(_)
-KeysKnown(kid) == kid = <<>> \/ (/\ \A i \in DOMAIN kid[1].k : kid[1].k[i] \in 1..cfg.nk
-                                  /\ \A j \in DOMAIN kid[1].c : KeysKnown(kid[1].c[j]))
 
 TRoot == /\ Good("root")
          /\ LET t == th[Ev.h]
